@@ -129,8 +129,9 @@ impl ParSystem for PanicPar {
     }
 }
 
-const OPS: [&str; 24] = [
+const OPS: [&str; 30] = [
     "remove0", "remove_mid", "remove_last", "clear", "add_overwrite", "add_shape", "remc", "drop_world",
+    "remc_full", "remc_last_full", "remc_to_new_table", "add_shape_full", "add_overwrite_full", "eq_value",
     "clone", "clone_from0", "clone_from1", "clone_from2", "eq_same", "eq_diff", "debug",
     "ser_json", "ser_tok_bin", "de_json", "de_tok_hr", "de_tok_bin", "run_system", "run_schedule", "run_par_system", "par_query",
 ];
@@ -142,8 +143,21 @@ fn prepare(op: &str) -> Worlds {
         "clone_from1" => Some(build_b(1)),
         "clone_from2" => Some(build_b(2)),
         "eq_same" => Some(a.clone()),
+        "eq_value" => {
+            // same structure, one value differs in the last table
+            let mut c = a.clone();
+            for result!(h) in c.query(Query::<Views!(&mut H)>::new()).iter {
+                h.set(4242);
+            }
+            Some(c)
+        }
         _ => None,
     };
+    let mut a = a;
+    if op.ends_with("_full") {
+        // every column exactly full: the next push has to reallocate
+        a.shrink_to_fit();
+    }
     Worlds { a: Some(a), b, out: None, ids }
 }
 
@@ -190,14 +204,24 @@ fn exec(op: &str, ws: &mut Worlds) {
             let x = B::fresh(9);
             ws.a.as_mut().unwrap().entry(ids[1]).unwrap().add(x)
         }
-        "remc" => ws.a.as_mut().unwrap().entry(ids[0]).unwrap().remove::<W, _>(),
+        "remc" | "remc_full" => ws.a.as_mut().unwrap().entry(ids[0]).unwrap().remove::<W, _>(),
+        "remc_last_full" => ws.a.as_mut().unwrap().entry(ids[2]).unwrap().remove::<H, _>(),
+        "remc_to_new_table" => ws.a.as_mut().unwrap().entry(ids[3]).unwrap().remove::<B, _>(),
+        "add_shape_full" => {
+            let x = W::fresh(9);
+            ws.a.as_mut().unwrap().entry(ids[8]).unwrap().add(x)
+        }
+        "add_overwrite_full" => {
+            let x = S::fresh(999);
+            ws.a.as_mut().unwrap().entry(ids[1]).unwrap().add(x)
+        }
         "drop_world" => drop(ws.a.take()),
         "clone" => ws.out = Some(ws.a.as_ref().unwrap().clone()),
         "clone_from0" | "clone_from1" | "clone_from2" => {
             let src = ws.a.as_ref().unwrap();
             Clone::clone_from(ws.b.as_mut().unwrap(), src)
         }
-        "eq_same" | "eq_diff" => {
+        "eq_same" | "eq_diff" | "eq_value" => {
             let _ = ws.a.as_ref().unwrap() == ws.b.as_ref().unwrap();
         }
         "debug" => {
@@ -239,10 +263,11 @@ fn exec(op: &str, ws: &mut Worlds) {
 fn kinds_of(op: &str) -> Vec<u32> {
     match op {
         "remove0" | "remove_mid" | "remove_last" | "clear" | "add_overwrite" | "remc" | "drop_world" => vec![K_DROP],
-        "add_shape" => vec![],
+        "remc_full" | "remc_last_full" | "remc_to_new_table" | "add_overwrite_full" => vec![K_DROP],
+        "add_shape" | "add_shape_full" => vec![],
         "clone" => vec![K_CLONE],
         "clone_from0" | "clone_from1" | "clone_from2" => vec![K_CLONE, K_DROP],
-        "eq_same" | "eq_diff" => vec![K_EQ],
+        "eq_same" | "eq_diff" | "eq_value" => vec![K_EQ],
         "debug" => vec![K_DEBUG],
         "ser_json" | "ser_tok_bin" => vec![K_SER],
         "de_json" | "de_tok_hr" | "de_tok_bin" => vec![K_DE],
@@ -286,7 +311,9 @@ fn dry_count(op: &str) -> Vec<(u32, u64)> {
     pre(op, &mut ws);
     reset_callbacks();
     let _ = catch_unwind(AssertUnwindSafe(|| exec(op, &mut ws)));
-    let r = kinds_of(op).into_iter().map(|k| (k, callbacks(k))).collect();
+    // the number of PartialEq call-backs before the first difference depends on the table iteration
+    // order (addresses): use a fixed bound so that the enumeration is the same in every process
+    let r = kinds_of(op).into_iter().map(|k| (k, if op == "eq_value" { 23 } else { callbacks(k) })).collect();
     drop(ws.a.take());
     drop(ws.b.take());
     drop(ws.out.take());
